@@ -693,7 +693,10 @@ func runTPBatch(c *core.Ctx, pool *gjs.Pool, progs []*minigo.Program, inputs [][
 		res.infra = fmt.Errorf("reference toolchain rejected a trace-point batch: %s", tail(r.Out, 1200))
 		return res
 	}
-	nr := gjs.NativeRun(bin, 2*time.Minute, nil, maskArg)
+	nr := gjs.NativeRun(bin, 6*time.Minute, nil, maskArg)
+	if nr.TimedOut { // a loaded machine: once more
+		nr = gjs.NativeRun(bin, 12*time.Minute, nil, maskArg)
+	}
 	if nr.ExitCode != 0 || nr.TimedOut {
 		res.infra = fmt.Errorf("reference run of a trace-point batch failed: %s", tail(nr.Out, 600))
 		return res
